@@ -462,6 +462,14 @@ def length(I, v, node=None):
 def iterate(I, v, node=None):
     """python generator over the elements of an interpreter value"""
     v = deref(v)
+    if isinstance(v, ClassV) and v.is_enum:
+        # iterating an Enum class yields its members in definition order (aliases excluded)
+        seen = []
+        for m in v.enum_members.values():
+            if not any(m is x for x in seen):
+                seen.append(m)
+        yield from seen
+        return
     if isinstance(v, tuple):
         yield from v
         return
